@@ -18,7 +18,7 @@ fn nid(v: &[usize]) -> Vec<NodeId> {
 }
 
 /// model deletion of nodes: returns the renumbering (old -> Some(new) | None)
-fn model_delete_nodes(m: &mut PL, ids: &[usize]) -> Vec<Option<usize>> {
+pub fn model_delete_nodes(m: &mut PL, ids: &[usize]) -> Vec<Option<usize>> {
     let n = m.w.len();
     let mut dead = vec![false; n];
     for &i in ids {
